@@ -19,6 +19,7 @@ type State struct {
 	defers []*deferRec
 	dead   bool
 	sym    *symHeaps // non-nil: heaps are bound variables (definition of a recursive spec function)
+	split  []T       // path conditions of the states joined last (option split-joins: obligations are proved per case)
 }
 
 type deferRec struct {
@@ -28,7 +29,7 @@ type deferRec struct {
 }
 
 func (s *State) clone() *State {
-	n := &State{pc: s.pc, alloc: s.alloc, dead: s.dead}
+	n := &State{pc: s.pc, alloc: s.alloc, dead: s.dead, split: s.split}
 	n.cells = make(map[*Cell]Val, len(s.cells))
 	for k, v := range s.cells {
 		n.cells[k] = v
@@ -227,6 +228,24 @@ func (fx *FuncVC) oblige(kind string, goal T, pos token.Pos, text string) {
 	name := fmt.Sprintf("%s/%s#%d", fx.funcName(), kind, fx.kindCnt[kind])
 	if ps := fx.posOf(pos); ps != "" {
 		name += "@" + ps
+	}
+	if len(fx.st.split) > 1 && fx.spec != nil && fx.spec.Options["split-joins"] != "" && goal.S != "true" {
+		// one obligation per joined path: the merged (ite) state collapses to one branch in each
+		for i, d := range fx.st.split {
+			n := name
+			if i > 0 {
+				fx.kindCnt[kind]++
+				n = fmt.Sprintf("%s/%s#%d", fx.funcName(), kind, fx.kindCnt[kind])
+				if ps := fx.posOf(pos); ps != "" {
+					n += "@" + ps
+				}
+			}
+			fx.obls = append(fx.obls, &Obligation{
+				Name: n, Kind: kind, Func: fx.funcName(), Pos: fx.posOf(pos), Goal: goal, PC: And(fx.st.pc, d),
+				NAssume: len(fx.assumps), NDecl: len(fx.decls), Text: fmt.Sprintf("%s [joined path %d of %d]", text, i+1, len(fx.st.split)), fx: fx,
+			})
+		}
+		return
 	}
 	fx.obls = append(fx.obls, &Obligation{
 		Name: name, Kind: kind, Func: fx.funcName(), Pos: fx.posOf(pos), Goal: goal, PC: fx.st.pc,
